@@ -29,7 +29,12 @@ UNAWARE = {
         PFS: "layout bootstrap of the snapshot-aware decoder",
         TR + "parse_version": "dead helper",
     },
-    "storage::tuple::Row::from_bytes_checked": {},
+    "storage::tuple::Row::from_bytes_checked": {
+        "io::recovery::WalRecuperator::redo_insert": "log images are decoded as written (fix 78ff00f): the analysis pass, not MVCC, decides which records apply",
+        "io::recovery::WalRecuperator::redo_update": "log images are decoded as written",
+        "io::recovery::WalRecuperator::undo_delete": "log images are decoded as written",
+        "io::recovery::WalRecuperator::undo_update": "log images are decoded as written",
+    },
     "storage::tuple::Tuple::as_tuple_ref_with": {},
     "tree::bplustree::Btree::<Acc>::get_tuple_at_unchecked": {
         "runtime::dml::DmlExecutor::insert": "recovery-idempotence probe: is the key physically present",
